@@ -46,7 +46,24 @@ def _idx(stmts, text):
     return None
 
 
+def _position_survives_def_fn(ctx, rep):
+    """ERL and the resume point are read from the code pointer at the time of the error: a DEF FN body is
+    parsed from another place in the program, so the pointer must be put back even when the body raises
+    (shared with C20, whose module owns the analysis of UserFunction.evaluate)."""
+    from . import c20
+    sub = type(rep)('C20')
+    c20.check(ctx, sub)
+    mine = [f for f in sub.findings if f.rule.startswith('codestream')]
+    for f in mine:
+        rep.ob('position.restored-after-def-fn-error', f.construct, False,
+               'an error inside a DEF FN body is reported (ERL, "in <line>") at the DEF FN line instead of the calling line', f.where)
+    tot = sum(v[0] for r, v in sub.by_rule.items() if r.startswith('codestream'))
+    rep.ob('position.restored-after-def-fn-error', 'UserFunction.evaluate restores the code pointer in its finally block', not mine and tot >= 1 and not sub.errors,
+           '; '.join(sub.errors))
+
+
 def check(ctx, rep):
+    _position_survives_def_fn(ctx, rep)
     parse = ctx.fn(INTERP + ':Interpreter.parse')
     tries = [n for n in own_nodes(parse) if isinstance(n, ast.Try)]
     ok = len(tries) == 1 and len(tries[0].handlers) == 1 and norm(tries[0].handlers[0].type) == 'error.BASICError' \
